@@ -606,6 +606,34 @@ impl VisitMut for Norm {
     fn visit_local_mut(&mut self, l: &mut Local) {
         // N7g: `let Some(P) = OPT.map(|p| B) [else D]`: the `Some` pattern shows OPT is an Option, so the combinator
         // is its definition: `match OPT { Some(p) => Some(B), None => None }`
+        // N8h (set form): `let X: Set<T> = ITER.copied().collect();` => insert loop
+        if let Pat::Type(pt) = &l.pat {
+            let is_set = match &*pt.ty {
+                Type::Path(tp) => tp.path.segments.last().map(|s| s.ident == "Set" || s.ident == "HashSet").unwrap_or(false),
+                _ => false,
+            };
+            if is_set {
+                if let Some(init) = &mut l.init {
+                    if let Expr::MethodCall(mc) = &*init.expr {
+                        if mc.method == "collect" && mc.args.is_empty() && is_copied_iter(&mc.receiver) {
+                            if let Expr::MethodCall(inner) = &*mc.receiver {
+                                let sp = mc.method.span();
+                                let it = inner.receiver.clone();
+                                let acc = self.fresh("set");
+                                let x = self.fresh("x");
+                                let ne: Expr = parse_quote!({
+                                    let mut #acc = Set::new();
+                                    for #x in #it { #acc.insert(*#x); }
+                                    #acc
+                                });
+                                *init.expr = ne;
+                                self.log("N8h-copied-collect-to-set-loop", sp);
+                            }
+                        }
+                    }
+                }
+            }
+        }
         if pat_is_some(&l.pat) {
             if let Some(init) = &mut l.init {
                 if let Some(ne) = option_map_to_match(&init.expr) {
@@ -626,6 +654,31 @@ impl VisitMut for Norm {
                 *e = ne;
                 // the produced expression is already normalised inside (operands were visited)
                 return;
+            }
+        }
+        // N8 (pre-order so that the produced loop gets the for-loop rules N8e/N9/N18): ITER.for_each(|p| B) => for p in ITER { B }
+        if let Expr::MethodCall(mc) = e {
+            if mc.method == "for_each" && mc.args.len() == 1 {
+                if let Expr::Closure(c) = &mc.args[0] {
+                    if c.inputs.len() == 1 && !body_has_return(&c.body) && matches!(&c.inputs[0], Pat::Ident(_) | Pat::Type(_)) {
+                        let sp = mc.method.span();
+                        let pat = match c.inputs[0].clone() {
+                            Pat::Type(pt) => *pt.pat,
+                            p => p,
+                        };
+                        if matches!(pat, Pat::Ident(_)) {
+                            let body = &c.body;
+                            let recv = &mc.receiver;
+                            let blk: Block = match &**body {
+                                Expr::Block(b) if b.label.is_none() => b.block.clone(),
+                                other => parse_quote!({ #other; }),
+                            };
+                            let ne: Expr = parse_quote!(for #pat in #recv #blk);
+                            *e = ne;
+                            self.log("N8-for_each-to-for", sp);
+                        }
+                    }
+                }
             }
         }
         if let Expr::Let(l) = e {
